@@ -4,7 +4,10 @@
 #include <typeinfo>
 
 bool g_relCopy = false;
-void ResetCaseFlags() { g_relCopy = false; }
+static std::unique_ptr<TA> g_keep;
+void ResetCaseFlags() { g_relCopy = false; g_keep.reset(); }
+void ShareIfAsked(const TA& a, const json& c) { if (c.value("amode", "") == "copy") { g_keep.reset(new TA(a)); } }
+void NoteKeep(json& res, const Alpha& alpha) { if (g_keep) { res["keep_after"] = ReadTA(*g_keep, alpha); } }
 
 Alpha::Alpha() :
 	otf(new TA::OnTheFlyAlphabet),
